@@ -126,7 +126,15 @@ def main():
             broken.append({'theorem': None, 'why': 'oracle (extraction of the model) does not build: ' + ' | '.join(bres['log'][-3:])})
         for b in broken:
             found = None
-            if hasattr(mod, 'search_failing_input'):
+            if b.get('theorem') == 'rules_are_expasy_reference' and prop != 'C10':
+                # shared obligation over the regenerated rule tables: use C10's search for a string on
+                # which the implementation's cleavage sites differ from the ExPASy reference
+                try:
+                    from harness.props import c10 as _c10
+                    found = _c10.search_failing_input(ctx, b)
+                except Exception as e:
+                    b['search_error'] = repr(e)
+            if not found and hasattr(mod, 'search_failing_input'):
                 try:
                     found = mod.search_failing_input(ctx, b)
                 except Exception as e:  # the search itself must never mask the broken obligation
